@@ -67,8 +67,8 @@ PROPS = {
               ["Zap.DocNumWidth.no_narrow_docnum", "Zap.remapSeg_spec", "Zap.remapAll_spec", "Zap.newDocCount_eq", "Zap.C05_consecutive", "Zap.C05_bijection",
                "Zap.C05_count", "Zap.C05_maps", "Zap.C05_zero", "Zap.C05_stored", "Zap.mergedFieldNames_spec",
                "Zap.fieldsSame_sound"], MERGE_FILES),
-    "C06": _p([{"regress": "k1_shape_only_field_merge.script"}, {"gen": "C06"}], ["ZapProofs.Props.C06", "ZapProofs.Props.C06Dv"],
-              ["Zap.enumerate_spec", "Zap.C06_dict", "Zap.C06_sorted", "Zap.C06_term", "Zap.C06_same_unchanged",
+    "C06": _p([{"regress": "d14_single_hit_zero_norm.script"}, {"regress": "k1_shape_only_field_merge.script"}, {"gen": "C06"}], ["ZapProofs.Props.C06", "ZapProofs.Props.C06Dv"],
+              ["Zap.enumerate_spec", "Zap.C06_dict", "Zap.C06_sorted", "Zap.C06_term", "Zap.C06_same_unchanged", "Zap.C06_D14_counterexample",
                "Zap.C06_dv", "Zap.C06_dv_newNum", "Zap.C06_dv_visit", "Zap.C06_dv_ascending", "Zap.C06_dv_entries",
                "Zap.C06_dvfields", "Zap.C06_dvFieldNames", "Zap.C06_dv_fix_D11"],
               MERGE_FILES + ["ZapProofs/Props/C06Dv.lean", "ZapProofs/MergeDvLemmas.lean"]),
@@ -77,8 +77,8 @@ PROPS = {
                "Zap.C07_reuse", "Zap.C07_reuse_spec", "Zap.C07_reuse_absent", "Zap.C07_reuse_source", "Zap.C07_flags_extracted",
                "Zap.C07_preserved_ok"],
               POST_FILES + ["ZapModel/Reuse.lean", "ZapProofs/ReuseLemmas.lean", "ZapProofs/Props/C07Reuse.lean"]),
-    "C08": _p([{"regress": "d10_empty_key_range.script"}, {"regress": "d1_stale_1hit.script"}, {"gen": "C08"}], ["ZapProofs.Props.C08", "ZapProofs.Props.C08Range", "ZapProofs.Props.C08Facts", "ZapProofs.Props.ReadWindows"],
-              ["Zap.ReadWindows.windows_full_width", "Zap.ReadWindows.windows_recognised", "Zap.C08_dict", "Zap.C08_empty_range", "Zap.C08_end_exclusive", "Zap.C08_stale_1hit_counterexample", "Zap.C08_merge_writes_wf",
+    "C08": _p([{"regress": "d14_single_hit_zero_norm.script"}, {"regress": "d10_empty_key_range.script"}, {"regress": "d1_stale_1hit.script"}, {"gen": "C08"}], ["ZapProofs.Props.C08", "ZapProofs.Props.C08Range", "ZapProofs.Props.C08Facts", "ZapProofs.Props.ReadWindows"],
+              ["Zap.ReadWindows.windows_full_width", "Zap.ReadWindows.windows_recognised", "Zap.C08_dict", "Zap.C08_empty_range", "Zap.C08_end_exclusive", "Zap.C08_stale_1hit_counterexample", "Zap.C08_merge_writes_wf", "Zap.C08_D14_counterexample",
                "Zap.C08Facts.sideCondition_holds", "Zap.C08Facts.read_clears_1hit", "Zap.C08Facts.count_reads_reinitialised"],
               MERGE_FILES + ["ZapProofs/Props/C08Facts.lean"]),
     "C10": _p([{"regress": "d9_empty_after_nonempty.script"}, {"gen": "C10"}, {"gen": "C10", "vectors": True, "seed_offset": 13},
